@@ -122,6 +122,8 @@ type Mode struct {
 	SummariseRun     bool // static calls to Run become ChildRun events
 	SummariseCfg     bool // BaseNode getters become cfg:* events
 	SummariseToSlice bool // ToSlice becomes an event (it is verified on its own by C15)
+	// PureFns: in-package functions summarised as deterministic calls (results are Pure terms named by the map value).
+	PureFns map[*ssa.Function]string
 }
 
 // Classifier returns the engine hook for the given mode.
@@ -141,6 +143,15 @@ func (r *Roles) Classifier(m Mode) func(ci *eng.CallInfo) *eng.Disposition {
 				}
 			}
 			rt := ci.Common.Value.Type()
+			if isNamed(rt, "reflect", "Type") {
+				// methods of reflect.Type are deterministic functions of the type
+				n := ci.Method.Type().(*types.Signature).Results().Len()
+				res := make([]*eng.Term, n)
+				for k := range res {
+					res[k] = eng.Pure("reflect.Type."+ci.Method.Name(), k, append([]*eng.Term{ci.Recv}, ci.Args...)...)
+				}
+				return &eng.Disposition{Act: eng.ActEvent, Class: "reflect.Type." + ci.Method.Name(), Results: res}
+			}
 			if isNamed(rt, "context", "Context") {
 				switch ci.Method.Name() {
 				case "Err":
@@ -153,6 +164,14 @@ func (r *Roles) Classifier(m Mode) func(ci *eng.CallInfo) *eng.Disposition {
 			return nil
 		}
 		if f := ci.Static; f != nil {
+			if name, ok := m.PureFns[f]; ok {
+				n := f.Signature.Results().Len()
+				res := make([]*eng.Term, n)
+				for k := range res {
+					res[k] = eng.Pure(name, k, ci.Args...)
+				}
+				return &eng.Disposition{Act: eng.ActEvent, Class: "sum:" + name, Results: res}
+			}
 			if m.SummarisePool {
 				switch f {
 				case r.FnNewWorkerPool:
